@@ -43,6 +43,9 @@ class DType(AbsInt):
     def cyclic(self, name):
         return E  # least fixpoint of a union domain
 
+    def container_mutated(self, name, value):
+        return value  # appended values are added in name() below
+
     def name(self, name, ctx):
         v = self.flat(super().name(name, ctx))
         # containers filled through .append / .extend
